@@ -218,6 +218,7 @@ class Task(object):
         self.sol = None
         self.streams = {}
         self.diagnostics = {}
+        self.objective_history = []
         LAST_TASK[0] = self
         self._rec("Task", [])
 
@@ -405,6 +406,9 @@ class Task(object):
             # the real Task.optimize() takes no argument
             raise TypeError("optimize() takes 1 positional argument but %d were given" % (1 + len(args) + len(kwargs)))
         nvar, ncon = len(self.varbound), len(self.conbound)
+        # the objective this optimize() is handed, under A1 (for the harness: one entry per solve)
+        self.objective_history.append(dict(sense=self.sense.name, c=sorted(self.c.items()),
+                                           barc={j: self.dense_combination(j, comb) for j, comb in self.barC.items()}))
         if SCRIPTED[0]:
             self.diagnostics = dict(status="scripted")
             self.sol = dict(prosta=prosta.prim_and_dual_feas, solsta=solsta.optimal, obj=0.0,
